@@ -305,6 +305,28 @@ def rule_p7(ctx, F):
     ctx.before("P7", "new:parser-reset-before-parse", fn, use, rst, "the parser is reset (set_language) before each layer is parsed", reset_pts=use)
 
 
+def rule_u1(ctx):
+    """U1: the lossy decoder that HtmlRenderer::add_text writes text through never swallows text.  LossyUtf8::next may
+    end the iteration (None) only when no bytes are left *and* no replacement character is owed; an incomplete sequence at
+    the end of the input is an error like any other (valid text before it is yielded, then U+FFFD)."""
+    from rsrules import TextGate
+    F2 = ctx.extract.rsfacts("tree_sitter")
+    c = [f for f in F2.fn_list if "LossyUtf8" in f.name and f.name.endswith("::next")]
+    if not c:
+        ctx.bad("U1", "LossyUtf8::next:anchor", "LossyUtf8::next not found in the tree_sitter crate")
+        return
+    fn = c[0]
+    nones = [pt for pt, e in fn.points() for x in own_walk(e) if x.get("k") == "assign" and show(x["l"]) == "_0" and strip(x["r"]).get("k") == "agg" and strip(x["r"]).get("variant") != "Some"
+             and "Option" in str(strip(x["r"]).get("adt"))]
+    if not nones:
+        ctx.bad("U1", "LossyUtf8::next:none-exits", "LossyUtf8::next has no `None` exit")
+        return
+    text_gate(ctx, "U1", fn, nones, [
+        ("the iteration ends only when no bytes are left", [(("is_empty(", "bytes"), True), (("len(", "bytes", "== 0"), True)]),
+        ("…and no replacement character is still owed", [(("in_replacement",), False)]),
+    ], accept_desc="ending the iteration")
+
+
 def rule_l1(ctx, F):
     """L1: a name resolved as a local reference is highlighted like its definition: the emitted
     highlight is `reference_highlight.or(current_highlight)`; a definition's slot receives the highlight
@@ -451,6 +473,7 @@ def run(ctx):
     rule_p5(ctx, F)
     rule_p6(ctx, F)
     rule_p7(ctx, F)
+    rule_u1(ctx)
     rule_l1(ctx, F)
     rule_g2(ctx, F)
     return ctx.finish(
